@@ -1,5 +1,5 @@
 """C06 -- (T,V)->(T,P) conversion evaluates each quantity at the volume where P(T,V) = P."""
-import importlib, itertools, types, warnings
+import importlib, itertools, os, types, warnings
 import numpy
 import z3
 from vf import core, smt, symnp
@@ -266,6 +266,43 @@ def run(s):
                             replay={"reproduced": True, "P_MIN": pmin, "DELTA_P": dp, "NTV": ntv})
         return core.proved("finite", "%d (P_MIN, DELTA_P, NTV) settings incl. steps 0.1, 0.2, 0.05, 0.3, 0.7 and a negative step: exactly NTV pressures P_MIN + j DELTA_P" % n)
     s.oblige("C06.pressure_grid_is_the_requested_one", pressure_grid, [QA + "QHACalculator.desired_pressures_gpa"], kind="finite")
+    # ---------------- 3c. the QHA layer is built from the EFFECTIVE settings (user over packaged defaults) and the phonon input the configuration names
+    def load_callsite():
+        import tempfile, shutil, yaml, cij.io, cij.io.traditional
+        cal = importlib.import_module("cij.core.calculator")
+        with open(os.path.join(core.REPO, "cij/data/default/settings.yaml")) as fp:
+            packaged = yaml.safe_load(fp)
+        tmp = tempfile.mkdtemp(prefix="c06l_")
+        try:
+            n = 0
+            for user_q in ({"NT": 7, "NTV": 33}, {"DELTA_P": 0.25, "P_MIN": 3.0}, {}, dict(packaged["qha"]["settings"], DT=17.0)):
+                user = {"qha": {"input": "ph.in", "settings": dict(user_q)}, "elast": {"input": "el.in", "settings": {"symmetry": {"system": "cubic"}}}}
+                with open(os.path.join(tmp, "settings.yaml"), "w") as fp:
+                    yaml.safe_dump(user, fp)
+                seen = {}
+                rec = lambda settings, qha_input, *a, **k: seen.update(settings=dict(settings), qha_input=qha_input) or "QHA-LAYER"
+                me = types.SimpleNamespace()
+                with patched(cal, QHACalculatorAdapter=rec), patched(cij.io.traditional, read_energy=lambda p_: ("PHONON", str(p_)), read_elast_data=lambda p_: ("STATIC", str(p_))):
+                    cal.Calculator._load(me, os.path.join(tmp, "settings.yaml"))
+                n += 1
+                want = dict(packaged["qha"]["settings"], **user_q)
+                got = seen.get("settings")
+                if got is None or any(got.get(k_) != v_ for k_, v_ in want.items()):
+                    diff = {k_: (None if got is None else got.get(k_), v_) for k_, v_ in want.items() if got is None or got.get(k_) != v_}
+                    return core.refuted("callsite", "user QHA settings %r: the QHA layer is built with %r (setting: (received, effective = user over packaged default))" % (user_q, diff),
+                                        witness_id="load-settings", replay={"reproduced": True, "user_settings": user_q})
+                if seen.get("qha_input") != ("PHONON", os.path.join(tmp, "ph.in")) or getattr(me, "qha_input", None) != ("PHONON", os.path.join(tmp, "ph.in")) or \
+                        getattr(me, "elast_data", None) != ("STATIC", os.path.join(tmp, "el.in")) or getattr(me, "qha_calculator", None) != "QHA-LAYER":
+                    return core.refuted("callsite", "inputs are not read from the configuration file's directory / not handed to the QHA layer: %r" % (seen.get("qha_input"),),
+                                        witness_id="load-inputs", replay={"reproduced": True})
+                eff = getattr(me, "config", None)
+                if not isinstance(eff, dict) or any(eff["qha"]["settings"].get(k_) != v_ for k_, v_ in want.items()):
+                    return core.refuted("callsite", "Calculator.config is not the effective configuration", witness_id="load-config", replay={"reproduced": True})
+        finally:
+            shutil.rmtree(tmp, ignore_errors=True)
+        return core.proved("callsite", "%d configurations (settings omitted, partly given, fully given): QHACalculatorAdapter receives user-over-packaged-default settings and the phonon input of "
+                                       "the configuration's directory; Calculator.config is the same effective configuration" % n)
+    s.oblige("C06.load_hands_effective_settings_to_qha_layer", load_callsite, ["calculator.Calculator._load"], kind="finite")
     # ---------------- 4. bounded: real calculations
     real_forwarding(s)
     real_runs(s)
